@@ -583,6 +583,49 @@ def corruption(res, spec, idx, tier, case, plan, names, wd=None):
             res.hashes.add(h([idx, list(map(str, p)), repr(w)]))
 
 
+def duplicate_ids(res, spec, idx, case, plan, names):
+    """Two states declaring the same custom id (siblings, cousins, or a state and its own descendant)
+    are ambiguous: create_machine() must refuse the config with a library error."""
+    rng = rng_for(spec["seed"], ID, spec["chunk"], idx, "dupid")
+    nodes = [n for n in case.tree.order if n.parent is not None and n.kind != "history"]
+    if len(nodes) < 2:
+        return
+    for rep in range(3):
+        a, b = rng.sample(nodes, 2)
+        rel = "siblings" if a.parent is b.parent else (
+            "ancestor-and-descendant" if a.is_desc_of(b) or b.is_desc_of(a) else "different-branches")
+        cfg = gen.materialize(_clean(copy.deepcopy(plan)))
+
+        def sd_of(node):
+            sd = cfg
+            for x in list(reversed(list(node.ancestors(include_self=True))))[1:]:
+                sd = sd["states"][x.key]
+            return sd
+        sd_of(a)["id"] = "dup_id_x"
+        sd_of(b)["id"] = "dup_id_x"
+        rec = Rec()
+        res.evaluations += 1
+        res.count("duplicate-id.configs." + rel)
+        res.hashes.add(h([idx, "dupid", a.id, b.id]))
+        witness = {"states": [a.id, b.id], "relation": rel, "config": _jsonable(cfg)}
+        try:
+            create_machine(cfg, logic=build_logic(case, rec, {}, names=names,
+                                                  services=observe.build_services(case, rec)))
+        except LIBERR as e:
+            res.count("duplicate-id.rejected")
+            if "dup_id_x" not in str(e):
+                res.violation("C18:duplicate-id-rejection-does-not-name-the-id", str(e)[:160], witness,
+                              case={"idx": idx})
+            continue
+        except Exception as e:  # noqa: BLE001
+            res.violation("C18:raw-%s/create/duplicate-id" % type(e).__name__, repr(e)[:160], witness,
+                          case={"idx": idx})
+            continue
+        res.violation("C18:duplicate-custom-id-accepted/%s" % rel,
+                      "states %s and %s both declare id 'dup_id_x' and create_machine() accepted the config" % (
+                          a.id, b.id), witness, case={"idx": idx})
+
+
 def _jsonable(v):
     if isinstance(v, dict):
         return {str(k): _jsonable(x) for k, x in v.items()}
@@ -609,6 +652,8 @@ def run_chunk(spec):
         if out is not None and (j < ncorr or only):
             wd.arm("corrupt idx=%d" % idx)
             corruption(res, spec, idx, tier, *out, wd=wd)
+        if out is not None:
+            duplicate_ids(res, spec, idx, *out)
     wd.disarm()
     return res.to_json()
 
@@ -618,7 +663,9 @@ def quota(counters, tier):
     need = ["compared.fingerprints", "compared.traces.sync", "compared.traces.async",
             "metamorphic.shared-local-names", "census.resolutions.sync", "census.resolutions.async",
             "corruption.runs.sync", "corruption.runs.async",
-            "corruption.rejected-at-create", "corruption.accepted"]
+            "corruption.rejected-at-create", "corruption.accepted", "duplicate-id.configs.siblings",
+            "duplicate-id.configs.different-branches", "duplicate-id.configs.ancestor-and-descendant",
+            "duplicate-id.rejected"]
     need += ["rewrites." + k for k in REWRITES]
     for k in need:
         if counters.get(k, 0) == 0:
